@@ -11,14 +11,60 @@ Proof.
   - apply PeanoNat.Nat.eqb_neq in E. apply Z.eqb_neq. lia.
 Qed.
 
+(* the mask loop: data[2i : 2i+2] is in range for every i < len/2 *)
+Lemma masks_chk_eq n : forall ev i p acc, length ev = (2 * (i + n))%nat ->
+  masks_chk ev i n p acc = Ok (masks_loop (skipn (2 * i) ev) n p acc).
+Proof.
+  induction n as [|n IH]; intros ev i p acc L; [destruct (skipn (2 * i) ev); reflexivity|].
+  cbn [masks_chk].
+  rewrite go_slice_ok by lia.
+  replace (Z.to_nat (Z.of_nat (2 * i + 2)) - Z.to_nat (Z.of_nat (2 * i)))%nat with 2%nat by lia.
+  rewrite Nat2Z.id.
+  pose proof (skipn_length' (2 * i) ev) as LS.
+  pose proof (skipn_skipn' 2 (2 * i) ev) as SS.
+  destruct (skipn (2 * i) ev) as [|a [|b rest]] eqn:E; cbn [length] in LS; try lia.
+  cbn [bind firstn masks_loop].
+  replace (2 * S i)%nat with (2 * i + 2)%nat in * by lia.
+  cbn [skipn] in SS.
+  destruct (existsb (fun x => x) (dec_chmask_list [a; b])).
+  - rewrite IH by lia. replace (2 * S i)%nat with (2 * i + 2)%nat by lia. rewrite <- SS. reflexivity.
+  - rewrite IH by lia. replace (2 * S i)%nat with (2 * i + 2)%nat by lia. rewrite <- SS. reflexivity.
+Qed.
+
+(* one unit of fuel more than there are masks changes nothing *)
+Lemma masks_fuel n : forall data p acc, length data = (2 * n)%nat ->
+  masks_loop data (S n) p acc = masks_loop data n p acc.
+Proof.
+  induction n as [|n IH]; intros data p acc L.
+  - destruct data; [reflexivity|discriminate L].
+  - destruct data as [|a [|b rest]]; cbn [length] in L; try lia.
+    change (masks_loop (a :: b :: rest) (S (S n)) p acc) with
+      (let cm := dec_chmask_list [a; b] in
+       if existsb (fun x => x) cm then masks_loop rest (S n) [] (acc ++ p ++ [cm]) else masks_loop rest (S n) (p ++ [cm]) acc).
+    change (masks_loop (a :: b :: rest) (S n) p acc) with
+      (let cm := dec_chmask_list [a; b] in
+       if existsb (fun x => x) cm then masks_loop rest n [] (acc ++ p ++ [cm]) else masks_loop rest n (p ++ [cm]) acc).
+    cbv zeta. rewrite !IH by lia. reflexivity.
+Qed.
+
+Ltac eval_slices :=
+  cbv [go_slice go_index zlen length Z.of_nat Pos.of_succ_nat Pos.succ Z.leb Z.ltb Z.compare Pos.compare Pos.compare_cont
+       andb orb negb Z.to_nat Pos.to_nat Pos.iter_op Nat.add Nat.sub Nat.mul firstn skipn nth_error nth bind Z.eqb Pos.eqb
+       Z.sub Z.add Z.opp Z.pos_sub Pos.pred_double Z.succ_double Z.pred_double Z.double].
+
 Theorem cflist_chk_eq data : cflist_unmarshal_chk data = cflist_unmarshal data.
 Proof.
   unfold cflist_unmarshal_chk, cflist_unmarshal.
   change 16%Z with (Z.of_nat 16). rewrite zlen_eqb.
   destruct (Nat.eqb (length data) 16) eqn:L; [|reflexivity]. apply PeanoNat.Nat.eqb_eq in L.
   do 16 (destruct data as [|? data]; [discriminate L|]). destruct data; [|discriminate L].
-  cbn [negb]. unfold go_index, go_slice, zlen. cbn [length nth_error Z.to_nat Pos.to_nat Pos.iter_op Nat.add].
-  vm_compute. reflexivity.
+  cbn [negb].
+  pose proof masks_chk_eq as M. pose proof masks_fuel as F. revert M F.
+  generalize masks_chk. generalize masks_loop. intros ml mc M F.
+  eval_slices.
+  match goal with |- context [N.eqb ?t 1] => destruct (N.eqb t 1) end.
+  - rewrite (M 7%nat) by reflexivity. rewrite (F 7%nat) by reflexivity. reflexivity.
+  - reflexivity.
 Qed.
 
 Theorem joinaccept_chk_eq data : joinaccept_unmarshal_chk data = joinaccept_unmarshal data.
@@ -28,14 +74,31 @@ Proof.
   destruct (Nat.eqb (length data) 12) eqn:L12.
   - apply PeanoNat.Nat.eqb_eq in L12.
     do 12 (destruct data as [|? data]; [discriminate L12|]). destruct data; [|discriminate L12].
-    vm_compute. reflexivity.
+    generalize dec_dlsettings. intros dd. eval_slices. reflexivity.
   - destruct (Nat.eqb (length data) 28) eqn:L28; [|reflexivity].
     apply PeanoNat.Nat.eqb_eq in L28.
     do 28 (destruct data as [|? data]; [discriminate L28|]). destruct data; [|discriminate L28].
     pose proof cflist_chk_eq as E. revert E.
     generalize cflist_unmarshal_chk. generalize cflist_unmarshal. intros g f E.
     generalize dec_dlsettings. intros dd.
-    cbv [go_slice go_index zlen length Z.of_nat Pos.of_succ_nat Pos.succ Z.leb Z.ltb Z.compare Pos.compare Pos.compare_cont
-         andb orb negb Z.to_nat Pos.to_nat Pos.iter_op Nat.add Nat.sub firstn skipn nth_error nth bind Z.eqb Pos.eqb].
+    eval_slices.
     rewrite E. reflexivity.
+Qed.
+
+(* every byte string gives a value or an error *)
+Theorem cflist_unmarshal_total data : okerr (cflist_unmarshal_chk data).
+Proof.
+  rewrite cflist_chk_eq. unfold cflist_unmarshal.
+  destruct (negb _); [apply okerr_err|]. destruct (_ =? 1); apply okerr_ok.
+Qed.
+
+Theorem joinaccept_unmarshal_total data : okerr (joinaccept_unmarshal_chk data).
+Proof.
+  rewrite joinaccept_chk_eq. unfold joinaccept_unmarshal.
+  destruct (_ && _); [apply okerr_err|].
+  destruct (dec_dlsettings _) as [[o r2] r1].
+  destruct (Nat.eqb _ 28).
+  - pose proof (cflist_unmarshal_total (skipn 12 data)) as H. rewrite cflist_chk_eq in H.
+    destruct (cflist_unmarshal (skipn 12 data)); cbn [bind]; destruct H as [H1 H2]; try congruence; [apply okerr_ok|apply okerr_err].
+  - apply okerr_ok.
 Qed.
